@@ -1240,9 +1240,13 @@ func c13Scens(kmin, kmax, m int, reloadKinds []string, sym bool) []c13Scen {
 
 // c13RunScens explores every scenario completely. The work is cut into items (scenario, first
 // depth(k) picks) that are dealt out to the shards by a hash (a running index would correlate with
-// the number of shards).
-func c13RunScens(t *testing.T, rec *vh.Rec, e *c13Env, scens []c13Scen, reduce bool, depth func(k int) int) {
-	total, items := 0, 0
+// the number of shards). budget is a wall-clock allowance for this process: when it runs out the
+// remaining items are skipped, which is recorded as "explored less" (never as a failure) and takes
+// the exhaustive flag away. It only matters for implementations that keep the lock across the
+// selections, where every move costs goroutine dumps.
+func c13RunScens(t *testing.T, rec *vh.Rec, e *c13Env, scens []c13Scen, reduce bool, depth func(k int) int, budget time.Duration, exhaustive bool) {
+	total, items, skipped := 0, 0, 0
+	start := time.Now()
 	for si, sc := range scens {
 		base := c13Case{Reqs: sc.reqs, Reloads: sc.reloads, Reduce: reduce, Sym: sc.sym}
 		w := len(sc.reqs) + 1
@@ -1257,6 +1261,10 @@ func c13RunScens(t *testing.T, rec *vh.Rec, e *c13Env, scens []c13Scen, reduce b
 			if !vh.Mine(int(h.Sum32() >> 4)) {
 				continue
 			}
+			if time.Since(start) > budget {
+				skipped++
+				continue
+			}
 			fixed := make([]int, dp)
 			for i, y := 0, x; i < dp; i++ {
 				fixed[i] = y % w
@@ -1267,6 +1275,11 @@ func c13RunScens(t *testing.T, rec *vh.Rec, e *c13Env, scens []c13Scen, reduce b
 				items++
 			}
 		}
+	}
+	rec.SetExhaustive(exhaustive && skipped == 0)
+	if skipped > 0 {
+		rec.Note("wall-clock allowance of %v used up: %d candidate work items (scenario x first picks) not explored by this shard", budget, skipped)
+		rec.Extra("work_items_skipped_for_time", skipped)
 	}
 	if idx, _ := vh.Shard(); idx == 0 {
 		rec.Extra("scenarios", len(scens)) // vcheck sums numeric extras over the shards
@@ -1285,7 +1298,6 @@ func TestVerif_C13_exhaustive(t *testing.T) {
 		return
 	}
 	rec.Require("reload-between-selections", "reload-inside-selection", "reload-ok", "reload-failed", "dual", "v4", "v6")
-	rec.SetExhaustive(true)
 	all := []string{"new", "missing", "garbage"}
 	scens := c13Scens(1, 2, 1, all, false)
 	if vh.Thorough() {
@@ -1303,7 +1315,7 @@ func TestVerif_C13_exhaustive(t *testing.T) {
 			return 5
 		}
 		return 2
-	})
+	}, time.Duration(vh.Pick(45, 540))*time.Second, true)
 }
 
 // TestVerif_C13_reduced: larger scenarios, enumerated modulo the order of request moves between
@@ -1333,7 +1345,7 @@ func TestVerif_C13_reduced(t *testing.T) {
 			}
 		}
 	}
-	c13RunScens(t, rec, e, scens, true, func(k int) int { return k - 1 })
+	c13RunScens(t, rec, e, scens, true, func(k int) int { return k - 1 }, time.Duration(vh.Pick(40, 240))*time.Second, false)
 }
 
 func c13Gen(rt *rapid.T) c13Case {
